@@ -1,0 +1,167 @@
+//go:build verif
+
+package patch
+
+// Contracts for the patch table, guards and jump-data generation (C01, C02, C11, C13, C14),
+// checked by /verif/bin/govc; comment-only.
+
+// window_is(a, b): the 13-byte entry window at address a currently holds the bytes of b.
+//@ pure func window_is(a uintptr, b []byte) bool = forall i int :: 0 <= i && i < len(b) ==> textmem[a + uintptr(i)] == b[i]
+//@ pure func locked() bool = mutex_held[addr(patchesLock)]
+//@ pure func addr13_ok(a uintptr) bool = a < 0x7fffffff00000000
+
+//@ func lock
+//@   props C11 C02
+//@   assigns mutex_held[addr(patchesLock)]
+//@   ensures held: locked()
+//@ func unlock
+//@   props C11 C02
+//@   requires held: locked()
+//@   assigns mutex_held[addr(patchesLock)]
+//@   ensures released: !locked()
+
+//@ func checkAndReadOriginBytes
+//@   props C02 C13
+//@   requires range: addr13_ok(origin) && 1 <= jumpDataLen && jumpDataLen < 0x10000
+//@   assigns rw_rheld[addr(memory.memoryAccessLock)]
+//@   ensures captured: result1 == nil ==> len(result0) == jumpDataLen && fresh(result0) && window_is(origin, result0)
+//@   ensures refuses_patched_entry: result1 == nil ==> !x86_is_nop(result0, 0)
+//@   ensures sentinel_means_error: textmem[origin] == 0x90 ==> result1 != nil
+
+//@ func genJumpData
+//@   props C01 C13 C14
+//@   assigns nothing
+//@   ensures shape: err == nil ==> len(jumpData) == 13 && x86_is_nop(jumpData, 0) && x86_is_movabs_rdx_jmp(jumpData, 1) && fresh(jumpData)
+//@   ensures jumps_through_funcvalue: err == nil ==> x86_movabs_rdx_imm(jumpData, 1) == replacementInAddr
+//@   ensures refuses_short_target: err == nil ==> 13 < bytecode.func_extent(origin)
+
+// ---- guards ---------------------------------------------------------------------------------------
+
+//@ pure func guard_wf(g *Guard) bool = g != nil && len(g.originBytes) == 13 && len(g.jumpBytes) == 13 && addr13_ok(g.origin)
+//@   | && arr(g.originBytes) != textref && arr(g.jumpBytes) != textref && x86_is_nop(g.jumpBytes, 0) && !x86_is_nop(g.originBytes, 0)
+//@ pure func text_unchanged() bool = forall a uintptr :: textmem[a] == old(textmem[a])
+//@ pure func perm_exec_kept() bool = forall q uintptr :: perm[q] == 5 || perm[q] == old(perm[q])
+
+//@ func (g *Guard) Apply
+//@   props C02 C01 C11 C14
+//@   requires wf: guard_wf(g)
+//@   assigns g.applied, textmem[g.origin : g.origin + 13], perm, mutex_held[addr(patchesLock)], rw_wheld[addr(memory.memoryAccessLock)]
+//@   ensures applied: g.applied
+//@   ensures diverted: window_is(g.origin, g.jumpBytes)
+//@   ensures pages_rx: perm_exec_kept()
+//@   ensures lock_released: !locked()
+
+//@ func (g *Guard) Unpatch
+//@   props C02 C11 C14
+//@   requires wf: g != nil && g.applied ==> guard_wf(g)
+//@   requires lock_held: locked()
+//@   assigns textmem[g.origin : g.origin + 13], perm, rw_wheld[addr(memory.memoryAccessLock)]
+//@   ensures restored: g != nil && g.applied ==> window_is(g.origin, g.originBytes)
+//@   ensures untouched_if_not_applied: g == nil || !g.applied ==> text_unchanged()
+//@   ensures pages_rx: perm_exec_kept()
+
+//@ func (g *Guard) UnpatchWithLock
+//@   props C02 C11 C14
+//@   requires wf: g != nil && g.applied ==> guard_wf(g)
+//@   assigns textmem[g.origin : g.origin + 13], perm, mutex_held[addr(patchesLock)], rw_wheld[addr(memory.memoryAccessLock)]
+//@   ensures restored: g != nil && g.applied ==> window_is(g.origin, g.originBytes)
+//@   ensures untouched_if_not_applied: g == nil || !g.applied ==> text_unchanged()
+//@   ensures pages_rx: perm_exec_kept()
+//@   ensures lock_released: !locked()
+
+//@ func (g *Guard) Restore
+//@   props C02 C11 C14
+//@   requires wf: g != nil && g.applied ==> guard_wf(g)
+//@   assigns textmem[g.origin : g.origin + 13], perm, mutex_held[addr(patchesLock)], rw_wheld[addr(memory.memoryAccessLock)]
+//@   ensures rediverted: g != nil && g.applied ==> window_is(g.origin, g.jumpBytes)
+//@   ensures untouched_if_not_applied: g == nil || !g.applied ==> text_unchanged()
+//@   ensures lock_released: !locked()
+
+//@ func (g *Guard) FixOriginFunc
+//@   props C03
+//@   requires g != nil
+//@   pure
+//@   ensures field: result == g.fixOriginPtr
+
+// ---- the patch table ----------------------------------------------------------------------------------
+
+// A patch whose guard has been applied is complete and agrees with its guard.
+//@ pure func patch_guard_ok(p *patch) bool = p != nil && addr13_ok(p.originPtr) && (p.guard != nil ==> p.guard.origin == p.originPtr && (p.guard.applied ==> guard_wf(p.guard)))
+
+//@ func (p *patch) Guard
+//@   props C02 C01
+//@   requires nonnil: p != nil
+//@   assigns p.guard
+//@   ensures is_field: result == p.guard && result != nil
+//@   ensures cached: old(p.guard) != nil ==> result == old(p.guard)
+//@   ensures built: old(p.guard) == nil ==> fresh(result) && result.origin == p.originPtr && result.originBytes == p.originBytes
+//@     | && result.jumpBytes == p.jumpBytes && result.fixOriginPtr == p.fixOriginPtr && !result.applied
+
+//@ func (p *patch) unpatch
+//@   props C02 C11
+//@   requires ok: patch_guard_ok(p)
+//@   requires lock_held: locked()
+//@   assigns p.guard, textmem[p.originPtr : p.originPtr + 13], perm, rw_wheld[addr(memory.memoryAccessLock)]
+//@   ensures restored: old(p.guard) != nil && old(p.guard).applied ==> window_is(p.originPtr, old(p.guard).originBytes)
+//@   ensures untouched_if_not_applied: old(p.guard) == nil || !old(p.guard).applied ==> text_unchanged()
+//@   ensures guard_kept: p.guard != nil && (old(p.guard) != nil ==> p.guard == old(p.guard))
+//@   ensures ok_kept: patch_guard_ok(p)
+//@   ensures pages_rx: perm_exec_kept()
+
+//@ func unpatchValue
+//@   props C02 C11
+//@   requires table: patches != nil
+//@   requires entry_ok: has(patches, origin) ==> patch_guard_ok(patches[origin]) && patches[origin].originPtr == origin
+//@   requires lock_held: locked()
+//@   assigns patches[origin], old(patches[origin]).guard, textmem[origin : origin + 13], perm, rw_wheld[addr(memory.memoryAccessLock)]
+//@   ensures removed: !has(patches, origin)
+//@   ensures reports: result == old(has(patches, origin))
+//@   ensures restored: old(has(patches, origin)) && old(patches[origin].guard) != nil && old(patches[origin].guard.applied)
+//@     | ==> window_is(origin, old(patches[origin].guard.originBytes))
+//@   ensures untouched_otherwise: !old(has(patches, origin)) || old(patches[origin].guard) == nil || !old(patches[origin].guard.applied) ==> text_unchanged()
+//@   ensures pages_rx: perm_exec_kept()
+
+// patch_complete(p): what a successful replaceFunc establishes (C01 mechanism + C02 capture).
+//@ pure func patch_complete(p *patch) bool = len(p.jumpBytes) == 13 && len(p.originBytes) == 13 && arr(p.jumpBytes) != textref && arr(p.originBytes) != textref
+//@   | && x86_is_nop(p.jumpBytes, 0) && x86_is_movabs_rdx_jmp(p.jumpBytes, 1) && !x86_is_nop(p.originBytes, 0)
+//@   | && x86_movabs_rdx_imm(p.jumpBytes, 1) == bytecode.funcvalue_word(p.replacementValue)
+
+//@ func (p *patch) replaceFunc
+//@   props C02 C01 C11 C13 C14
+//@   requires target: p != nil && addr13_ok(p.originPtr) && p.guard == nil
+//@   requires table: patches != nil
+//@   requires entry_ok: has(patches, p.originPtr) ==> patch_guard_ok(patches[p.originPtr]) && patches[p.originPtr].originPtr == p.originPtr && patches[p.originPtr] != p
+//@   requires trampoline_elsewhere: p.trampolinePtr > 0 ==> tramp_ok(p.originPtr, p.trampolinePtr)
+//@   assigns patches[p.originPtr], old(patches[p.originPtr]).guard, p.jumpBytes, p.originBytes, p.fixOriginPtr,
+//@     | textmem[p.originPtr : p.originPtr + 13], textmem[p.trampolinePtr : p.trampolinePtr + uintptr(bytecode.func_extent(p.trampolinePtr))],
+//@     | perm, rw_wheld[addr(memory.memoryAccessLock)], rw_rheld[addr(memory.memoryAccessLock)], mutex_held[addr(patchesLock)]
+//@   ensures registered_gc_anchor: has(patches, p.originPtr) && patches[p.originPtr] == p
+//@   ensures complete: result == nil ==> patch_complete(p)
+//@   ensures captured_current_text: result == nil ==> window_is(p.originPtr, p.originBytes)
+//@   ensures refuses_short_target: result == nil ==> 13 < bytecode.func_extent(p.originPtr)
+//@   ensures previous_patch_removed_first: old(has(patches, p.originPtr)) && old(patches[p.originPtr].guard) != nil && old(patches[p.originPtr].guard.applied) && result == nil
+//@     | ==> forall i int :: 0 <= i && i < 13 ==> p.originBytes[i] == old(patches[p.originPtr].guard.originBytes[i])
+//@   ensures never_diverts: forall a uintptr :: p.originPtr <= a && a < p.originPtr + 13 ==> textmem[a] == old(textmem[a]) || (old(has(patches, p.originPtr)) && old(patches[p.originPtr].guard) != nil && old(patches[p.originPtr].guard.applied))
+//@   ensures error_leaves_placeholder: result != nil ==> forall a uintptr :: a < p.originPtr || a >= p.originPtr + 13 ==> textmem[a] == old(textmem[a])
+//@   ensures trampoline_on_success: result == nil && p.trampolinePtr > 0 ==> p.fixOriginPtr == p.trampolinePtr
+//@   ensures pages_rx: perm_exec_kept()
+//@   ensures lock_released: !locked()
+
+// tramp_ok: the placeholder body lies outside the origin's entry window and both are sane addresses.
+//@ pure func tramp_ok(origin uintptr, tramp uintptr) bool = addr13_ok(origin) && addr13_ok(tramp) && (tramp + uintptr(bytecode.func_extent(tramp)) <= origin || origin + 13 <= tramp)
+
+//@ func fixOrigin
+//@   props C03 C02 C13 C14
+//@   requires placement: tramp_ok(origin, trampoline) && jumpDataLen == 13
+//@   assigns textmem[trampoline : trampoline + uintptr(bytecode.func_extent(trampoline))], perm, rw_wheld[addr(memory.memoryAccessLock)], rw_rheld[addr(memory.memoryAccessLock)]
+//@   ensures error_writes_nothing: result1 != nil ==> text_unchanged()
+//@   ensures returns_placeholder: result1 == nil ==> result0 == trampoline
+//@   ensures pages_rx: perm_exec_kept()
+
+//@ trusted func fixOriginFuncToTrampoline
+//@   props C03 C02 C13 C14
+//@   requires placement: tramp_ok(origin, trampoline) && jumpInstSize == 13
+//@   assigns textmem[trampoline : trampoline + uintptr(bytecode.func_extent(trampoline))], perm, rw_wheld[addr(memory.memoryAccessLock)], rw_rheld[addr(memory.memoryAccessLock)]
+//@   ensures error_writes_nothing: result1 != nil ==> text_unchanged()
+//@   ensures returns_placeholder: result1 == nil ==> result0 == trampoline
+//@   ensures pages_rx: perm_exec_kept()
